@@ -94,7 +94,7 @@ def shadows_type(prog):
     """does a parameter/variable carry the name of a declared type?  Inside that procedure the name then denotes
     the variable (the local table is searched first), so a later `var v: <name>` is NOT well-typed although
     splgen.well_typed_program treats it as such."""
-    tnames = set(d[1] for d in prog if d[0] == "type")
+    tnames = set(d[1] for d in prog if d[0] == "type") | {"int"}
     for d in prog:
         if d[0] == "proc":
             if tnames & (set(x[1] for x in d[2]) | set(x[0] for x in d[3])):
@@ -104,7 +104,8 @@ def shadows_type(prog):
 
 def well_typed(rng, ndecls=None):
     while True:
-        prog, env = splgen.well_typed_program(rng, ndecls=ndecls)
+        # shadow=False: the fault injectors ADD declarations, calls and uses; legal shadowing is applied by the callers that want it
+        prog, env = splgen.well_typed_program(rng, ndecls=ndecls, shadow=False)
         if not shadows_type(prog):
             return prog
 
